@@ -622,6 +622,13 @@ func (t *Table) Put(input *types.PutItemInput) (map[string]*types.Item, error) {
 		return nil, types.NewError("ValidationException", err.Error(), nil)
 	}
 
+	// PutItem answers the replaced item, and only when it is asked for
+	var oldItem map[string]*types.Item
+
+	if stored, ok := t.Data[key]; ok && types.StringValue(input.ReturnValues) == "ALL_OLD" {
+		oldItem = copyItem(stored)
+	}
+
 	t.setItem(key, item)
 
 	for _, index := range t.Indexes {
@@ -631,7 +638,7 @@ func (t *Table) Put(input *types.PutItemInput) (map[string]*types.Item, error) {
 		}
 	}
 
-	return item, nil
+	return oldItem, nil
 }
 
 // ValidateWriteRequest checks, without changing anything, that a put of the item (or a delete of the key when
